@@ -62,3 +62,9 @@ def check(run: Run, prog: Program, cy: CyProgram, sites):
                     f"allocates it with {detail['init']} ({verdict}): raises on every "
                     f"call")
     u3(run, cy)
+    from .rules_c01 import CacheModel, _k4_cond_recompute
+    run.rule("U4", "a conditionally recomputed embedding/twin memo of Surrogates is "
+             "refreshed by every writer of the data it derives from")
+    _k4_cond_recompute(run, prog, CacheModel(prog), rule="U4",
+                       class_pred=lambda C: C.name == "Surrogates")
+    run.oblige("U4", "Surrogates:memo-scan", True, nontrivial=False)
